@@ -35,6 +35,8 @@ def _unparse_for_old_versions(node: ast.expr) -> ast.expr:
             field_name == "slice"
             and isinstance(sub_node, ast.Tuple)
             and any(isinstance(item, ast.Starred) for item in sub_node.elts)
+            # (a slice can't be in the parentheses)
+            and not any(isinstance(item, ast.Slice) for item in sub_node.elts)
         )
 
     def replace(sub_node):
